@@ -21,13 +21,14 @@ func init() {
 		Title: "Interrupts and abnormal exits: prompt delivery, clean unwind, reusable runtime",
 		Rule: fmt.Sprintf("programs = every nesting (quick: depth 1, thorough: depth <= 2; throw family: depth <= 2 in both tiers) of the %d context wrappers around each body; ", len(wrappers)) +
 			"one case = (program, injection): interrupt families inject at EVERY evaluation step k of the program (non-terminating bodies: k <= 60 quick, k <= 200 / 100 at depth 1 / 2 thorough), " +
-			"hostpanic at every tick call x 4 payloads, throw/limits have one case per program / grid point; limits-mixed = every sequence (length <= 4 quick, <= 5 thorough) over {call, direct eval, call trampoline, indirect eval} x L 0..9 against the order-independent unit model; limits-entry = 23 Go-side entry routes at rest x L 0..5 x d around the threshold, each followed by rest-state and threshold-unmoved probes; headroom = 25 parse-failure / eval-abort histories x L x {1,2,L} repetitions x {Run, Otto.Eval}, each followed by the remaining-depth vector on the runtime and on a Copy (must equal a fresh runtime's); every follow-up program of the other families also ends with a one-run headroom probe under limit 8; halt-followup = 5 halt values x 2 histories x 11 entry routes x 5 host-function panic kinds, compared with the model and a fresh runtime; interrupt-value = 15 panic values (8 in quick, comparable and uncomparable) of the interrupt function x depth-1 wrappers x every step k; unbuffered = capacity-0 channel with a sender goroutine parked in the send before Run and at every step k; entry = 11 API entry routes x 4 channel-installation times x {pre-queued, every step k} x {panic, record}. Each case runs on a fresh runtime " +
+			"hostpanic at every tick call x 4 payloads, throw/limits have one case per program / grid point; limits-width = N in {L-1,L,L+1,4L} siblings at nesting depth 1-2 of 9 constructs (calls, direct evals, trampolines, forEach, host re-entry, JSON.parse reviver, JSON.stringify plain/replacer/toJSON) must get the verdict of a single one; interrupt-reenter = non-panicking interrupt function that re-enters the runtime (3 ways) at every step of the depth-1 wrappers; interrupt-sites = 13 loop/polling-site shapes x 10 wrappers x 4 panic values x every step k <= 26; limits-mixed = every sequence (length <= 4 quick, <= 5 thorough) over {call, direct eval, call trampoline, indirect eval} x L 0..9 against the order-independent unit model; limits-entry = 23 Go-side entry routes at rest x L 0..5 x d around the threshold, each followed by rest-state and threshold-unmoved probes; headroom = 25 parse-failure / eval-abort histories x L x {1,2,L} repetitions x {Run, Otto.Eval}, each followed by the remaining-depth vector on the runtime and on a Copy (must equal a fresh runtime's); every follow-up program of the other families also ends with a one-run headroom probe under limit 8; halt-followup = 5 halt values x 2 histories x 11 entry routes x 5 host-function panic kinds, compared with the model and a fresh runtime; interrupt-value = 15 panic values (8 in quick, comparable and uncomparable) of the interrupt function x depth-1 wrappers x every step k; unbuffered = capacity-0 channel with a sender goroutine parked in the send before Run and at every step k; entry = 11 API entry routes x 4 channel-installation times x {pre-queued, every step k} x {panic, record}. Each case runs on a fresh runtime " +
 			"(plus a follow-up program and a second injected run on the same runtime). A case is non-trivial when the injection lands while the " +
 			"runtime is not at global level (a function/native frame, a pending label or a try/catch block is active at step k) or, for the " +
 			"throw/hostpanic/limits families, when the abnormal exit crosses at least one wrapper frame.",
 		Families: []engine.Family{
 			// cheapest first, so that a run that hits its time budget has completed the small families
 			{Name: "limits", Run: runLimits},
+			{Name: "limits-width", Run: runLimitsWidth},
 			{Name: "limits-mixed", Run: runLimitsMixed},
 			{Name: "limits-entry", Run: runLimitsEntry},
 			{Name: "headroom", Run: runHeadroomFamily},
@@ -36,7 +37,9 @@ func init() {
 			{Name: "unbuffered", Run: runUnbufferedFamily},
 			{Name: "throw", Run: runThrow},
 			{Name: "hostpanic", Run: runHostPanic},
+			{Name: "interrupt-sites", Run: runInterruptSites},
 			{Name: "interrupt-value", Run: runInterruptValue},
+			{Name: "interrupt-reenter", Run: runInterruptReenter},
 			{Name: "interrupt-record", Run: runInterruptRecord},
 			{Name: "interrupt-panic", Run: runInterruptPanic},
 		},
@@ -59,6 +62,8 @@ func init() {
 	engine.RegisterSignature("c18-interrupt-primitive-caught", sigInterruptPrimitiveCaught)
 	engine.RegisterSignature("c18-eval-units-ignored-by-frames", sigEvalUnitsIgnoredByFrames)
 	engine.RegisterSignature("c18-halt-dropped-by-uncaught-string", sigHaltDroppedByUncaughtString)
+	engine.RegisterSignature("c18-interrupt-nan-caught", sigInterruptNaNCaught)
+	engine.RegisterSignature("c18-reentry-resets-labels", sigReentryResetsLabels)
 }
 
 // convText is how tryCatchEvaluate's toValue(caught) fails for a panic value it
@@ -337,6 +342,80 @@ func runInterruptRecord(r *engine.Run) {
 			}
 		}
 	})
+}
+
+// --------------------------- (ii') interrupt function that re-enters the runtime
+
+var reenterNames = []string{"", "run_expression", "run_block_and_loop", "call_function_with_loop"}
+
+// runInterruptReenter: the interrupt function does not panic but uses the runtime
+// it interrupted (it runs on the interpreter's goroutine, like a host function):
+// Run of an expression, Run of a block and a loop, Otto.Call of a function with a
+// loop - at EVERY step of every depth-1 wrapper around the terminating bodies. The
+// interrupted script must end exactly like the uninterrupted one.
+func runInterruptReenter(r *engine.Run) {
+	r.Bound("reentries", strings.Join(reenterNames[1:], ","))
+	for wi := range wrappers {
+		for _, b := range []body{bodyAsg, bodyLoop} {
+			p := makeProg([]int{wi}, b)
+			if !owns(r, p.key) {
+				continue
+			}
+			r.Begin(p.key + "|reference")
+			ref, err := reference(p, r.Thorough())
+			r.End()
+			if err != nil || ref.cut {
+				r.HarnessError(fmt.Sprintf("interrupt-reenter reference failed: %s %v", p.key, err))
+				return
+			}
+			for re := 1; re < len(reenterNames); re++ {
+				for k := 0; k < ref.n; k++ {
+					key := fmt.Sprintf("%s|re%d|%d", p.key, re, k)
+					if !wantCase(r, key) {
+						continue
+					}
+					r.Begin(key)
+					s, err := newSession(p)
+					if err != nil {
+						r.End()
+						r.HarnessError("runtime setup failed: " + err.Error())
+						return
+					}
+					e := s.run(injection{mode: modeIntRecord, k: k, reenter: re}, nil, ref.n*3+400)
+					r.End()
+					r.Eval(nontrivialStep(ref, k))
+					r.Tree(1, 1)
+					exp := describe(ref.outcome, fmt.Sprintf("step %d on run-goroutine", k), 0, 0, restClean, ref.final, logString(ref.log)) + "; reentry=ok"
+					obs := describe(e.out.outcome(nil), e.delivery(e.out.gid), e.stepsAfter, e.hostAfter, e.rest(), e.final, logString(e.log)) + "; reentry=" + okOrErr(e.reenterErr)
+					r.Outcome(obs)
+					if exp != obs {
+						r.Mismatch(engine.Mismatch{Key: key, Input: inputOf(p, fmt.Sprintf("interrupt function re-enters the runtime (%s) at step %d of %d", reenterNames[re], k, ref.n)),
+							Expected: exp, Observed: obs, Aux: map[string]string{"kind": "interrupt-reenter", "reentry": reenterNames[re],
+								"labels_pending": fmt.Sprint(ref.labels[k]), "delivered": b01(e.delivery(e.out.gid) == fmt.Sprintf("step %d on run-goroutine", k)),
+								"panicked": b01(e.out.panicked), "rest": b01(e.rest() == restClean), "only_result_differs": b01(strings.Replace(obs, e.out.outcome(nil), ref.outcome, 1) != obs)}})
+					}
+				}
+			}
+		}
+	}
+}
+
+// sigReentryResetsLabels accepts exactly: a non-panicking interrupt function that
+// re-entered the runtime with code containing a block or a loop (Run / Otto.Call)
+// was delivered - correctly - at a step where a label was pending (between the
+// label push of a labelled statement and the statement it labels); nothing
+// panicked and the runtime is at rest; the interrupted script ended differently.
+func sigReentryResetsLabels(m *engine.Mismatch) bool {
+	a := m.Aux
+	return a != nil && a["kind"] == "interrupt-reenter" && a["labels_pending"] != "0" && a["reentry"] != "run_expression" &&
+		a["delivered"] == "1" && a["panicked"] == "0" && a["rest"] == "1"
+}
+
+func okOrErr(err error) string {
+	if err == nil {
+		return "ok"
+	}
+	return "err:" + err.Error()
 }
 
 // --------------------------- (iii) host function panics ---------------------
